@@ -33,6 +33,30 @@ def trait_methods(F, tr):
     return [m["name"] for m in t["methods"]] if t else []
 
 
+def _is_reply_helper(F, e):
+    """a private helper of the send wrapper `fn reply(resp, value)` whose body sends its second parameter on its first"""
+    cache = F.__dict__.setdefault("_reply_helper_memo", {})
+    key = e["callee"]
+    if key in cache:
+        return cache[key]
+    ok = False
+    hb = F.bodies.get(e["callee"]) or F.bodies.get(re.sub(r"::<[^>]*>", "", e["callee"]))
+    if hb is not None and "send_wrapper" in hb["path"] and hb["kind"] in ("Fn", "AssocFn") and hb["argc"] == 2 and len(e["args"]) == 2:
+        try:
+            hp = [q for q in SymExec(hb, cfg_of(hb), max_paths=200).run() if q.end[0] == "return"]
+            n0 = hb["locals"][1].get("name")
+            n1 = hb["locals"][2].get("name")
+            ok = bool(hp) and all(
+                len([x for x in q.events if x["callee"].endswith("Sender::<T>::send")]) == 1
+                and [x for x in q.events if x["callee"].endswith("Sender::<T>::send")][0]["args"][0] == ("P", n0)
+                and [x for x in q.events if x["callee"].endswith("Sender::<T>::send")][0]["args"][1] == ("P", n1)
+                for q in hp)
+        except Exception:
+            ok = False
+    cache[key] = ok
+    return ok
+
+
 def rule_Q1(F, R):
     R.begin("Q1", "proxy and actor tables agree: each StorageTxn method of the proxy builds the TxnMessage variant of the same name from its own parameters, and the actor's arm for each variant calls the WrappedStorageTxn method of the same name with the variant's fields in order and replies with that call's result")
     methods = trait_methods(F, TXN)
@@ -132,7 +156,7 @@ def rule_Q1(F, R):
         if var is None or not isinstance(var, str) or var not in variants:
             continue
         calls = [e for e in p.events if any(nm.startswith(WTXN + "::") for nm in e["names"])]
-        sends = [e for e in p.events if any(nm.endswith("Sender::<T>::send") for nm in e["names"])]
+        sends = [e for e in p.events if any(nm.endswith("Sender::<T>::send") for nm in e["names"]) or _is_reply_helper(F, e)]
         seen[var] = (p, calls, sends)
         w = where(ab, p.blocks[-1])
         if var == "Rollback":
